@@ -92,6 +92,9 @@ var c15bSites = []c15bSite{
 // doc of a top-level func/method for @testonly/@packageonly, doc of a named field of an @immutable struct for @mutable.
 func ZZC15bAttachment() { c15bAttachment(2, nil) }
 
+// ZZC15bAttachment3: any three sites non-plain at a time (thorough tier).
+func ZZC15bAttachment3() { c15bAttachment(3, nil) }
+
 // ZZC15bMutablePairs: the docs of two structs and of their same-named fields, all four arbitrary at once
 // (two @immutable structs each with a @mutable field of the same name, and every other combination).
 func ZZC15bMutablePairs() { c15bAttachment(4, []string{"s1", "s5", "s13", "s14"}) }
